@@ -54,7 +54,10 @@ def AFB1D_bwd(ps, ts):
     m, n = ps
     w0, w1, d0, d1 = ts
     x = torch.zeros(d0.shape[0], d0.shape[1], n, dtype=torch.float64, requires_grad=True)
-    x0, x1 = ll().AFB1D.apply(x, T(w0).reshape(1, 1, -1), T(w1).reshape(1, 1, -1), m)
+    try:
+        x0, x1 = ll().AFB1D.apply(x, T(w0).reshape(1, 1, -1), T(w1).reshape(1, 1, -1), m)
+    except Exception:
+        raise rt.HarnessSkip('forward pass raises')
     if tuple(x0.shape) != tuple(d0.shape) or tuple(x1.shape) != tuple(d1.shape):
         raise rt.HarnessSkip('cotangent shape does not match forward output')
     (g,) = torch.autograd.grad([x0, x1], x, [T(d0), T(d1)])
@@ -67,10 +70,44 @@ def SFB1D_fwd(ps, ts):
     return [N(ll().SFB1D.apply(T(lo), T(hi), T(g0).reshape(1, 1, -1), T(g1).reshape(1, 1, -1), m))]
 
 
-def SFB1D_bwd(ps, ts, needs=(True, True), shape_lo=None):
-    (m,) = ps
+def _grads(outs, ins, cots):
+    need = [i for i in ins if i.requires_grad]
+    if not need:
+        return [None for _ in ins]
+    gs = torch.autograd.grad(outs, need, cots, allow_unused=True)
+    it = iter(gs)
+    return [N(next(it)) if i.requires_grad else None for i in ins]
+
+
+def SFB1D_bwd(ps, ts):
+    m, n, mask = ps
     g0, g1, dy = ts
-    raise NotImplementedError
+    b, c = dy.shape[0], dy.shape[1]
+    lo = torch.zeros(b, c, n, dtype=torch.float64, requires_grad=bool(mask & 1))
+    hi = torch.zeros(b, c, n, dtype=torch.float64, requires_grad=bool(mask & 2))
+    try:
+        y = ll().SFB1D.apply(lo, hi, T(g0).reshape(1, 1, -1), T(g1).reshape(1, 1, -1), m)
+    except Exception:
+        raise rt.HarnessSkip('forward pass raises')
+    if tuple(y.shape) != tuple(dy.shape):
+        raise rt.HarnessSkip('cotangent shape does not match forward output')
+    return _grads([y], [lo, hi], [T(dy)])
+
+
+def SFB2D_bwd(ps, ts):
+    m, h, w, mask = ps
+    gr0, gr1, gc0, gc1, dy = ts
+    b, c = dy.shape[0], dy.shape[1]
+    lo = torch.zeros(b, c, h, w, dtype=torch.float64, requires_grad=bool(mask & 1))
+    hi = torch.zeros(b, c, 3, h, w, dtype=torch.float64, requires_grad=bool(mask & 2))
+    try:
+        y = ll().SFB2D.apply(lo, hi, T(gr0).reshape(1, 1, 1, -1), T(gr1).reshape(1, 1, 1, -1),
+                             T(gc0).reshape(1, 1, -1, 1), T(gc1).reshape(1, 1, -1, 1), m)
+    except Exception:
+        raise rt.HarnessSkip('forward pass raises')
+    if tuple(y.shape) != tuple(dy.shape):
+        raise rt.HarnessSkip('cotangent shape does not match forward output')
+    return _grads([y], [lo, hi], [T(dy)])
 
 
 def AFB2D_fwd(ps, ts):
@@ -85,8 +122,11 @@ def AFB2D_bwd(ps, ts):
     m, h, w = ps
     wr0, wr1, wc0, wc1, dl, dh = ts
     x = torch.zeros(dl.shape[0], dl.shape[1], h, w, dtype=torch.float64, requires_grad=True)
-    low, highs = ll().AFB2D.apply(x, T(wr0).reshape(1, 1, 1, -1), T(wr1).reshape(1, 1, 1, -1),
-                                  T(wc0).reshape(1, 1, -1, 1), T(wc1).reshape(1, 1, -1, 1), m)
+    try:
+        low, highs = ll().AFB2D.apply(x, T(wr0).reshape(1, 1, 1, -1), T(wr1).reshape(1, 1, 1, -1),
+                                      T(wc0).reshape(1, 1, -1, 1), T(wc1).reshape(1, 1, -1, 1), m)
+    except Exception:
+        raise rt.HarnessSkip('forward pass raises')
     if tuple(low.shape) != tuple(dl.shape) or tuple(highs.shape) != tuple(dh.shape):
         raise rt.HarnessSkip('cotangent shape does not match forward output')
     (g,) = torch.autograd.grad([low, highs], x, [T(dl), T(dh)])
